@@ -144,7 +144,9 @@ class PersistentVector(
         return self._inner[item]
 
     def __hash__(self):
-        return hash(self._inner)
+        # Vectors are equal to lists and seqs with the same elements, so they must
+        # hash like them (both of which hash like a tuple of their elements).
+        return hash(tuple(self._inner))
 
     def __iter__(self):
         yield from self._inner
